@@ -147,11 +147,14 @@ func genMixinDoc(g *Gen, r *rand.Rand, o string, keyPool []string, pathPool []st
 		}
 		d.Ch["security"] = listNode(el...)
 	}
-	// scalars, extensions and optional parts, each independently present or absent
-	if r.Intn(2) == 0 {
+	// scalars, extensions and optional parts, each independently present or absent - or, one document in six, ALL the top-level
+	// details present (host, basePath, every info scalar, contact, license, externalDocs) with only the nested ones left to chance
+	complete := r.Intn(6) == 0
+	coin := func() bool { return complete || r.Intn(2) == 0 }
+	if coin() {
 		d.At["host"] = o + ".example.com"
 	}
-	if r.Intn(2) == 0 {
+	if coin() {
 		d.At["basePath"] = "/" + o
 	}
 	ext := func(n *Node) {
@@ -162,15 +165,15 @@ func genMixinDoc(g *Gen, r *rand.Rand, o string, keyPool []string, pathPool []st
 		}
 	}
 	ext(d)
-	if r.Intn(3) > 0 {
+	if complete || r.Intn(3) > 0 {
 		info := NewNode()
 		for _, a := range []string{"title", "description", "version", "termsOfService"} {
-			if r.Intn(2) == 0 {
+			if coin() {
 				info.At[a] = o
 			}
 		}
 		ext(info)
-		if r.Intn(2) == 0 {
+		if coin() {
 			c := NewNode()
 			for _, a := range []string{"name", "url", "email"} {
 				if r.Intn(2) == 0 {
@@ -180,7 +183,7 @@ func genMixinDoc(g *Gen, r *rand.Rand, o string, keyPool []string, pathPool []st
 			ext(c)
 			info.Ch["contact"] = c
 		}
-		if r.Intn(2) == 0 {
+		if coin() {
 			l := NewNode()
 			for _, a := range []string{"name", "url"} {
 				if r.Intn(2) == 0 {
@@ -192,10 +195,10 @@ func genMixinDoc(g *Gen, r *rand.Rand, o string, keyPool []string, pathPool []st
 		}
 		d.Ch["info"] = info
 	}
-	if r.Intn(3) == 0 {
+	if complete || r.Intn(3) == 0 {
 		e := NewNode()
 		for _, a := range []string{"description", "url"} {
-			if r.Intn(2) == 0 {
+			if coin() {
 				e.At[a] = o
 			}
 		}
